@@ -388,7 +388,7 @@ def gen_ops(tier, rng):
             cps = rstr(n, 128, [0, 127, 32])
             yield f"encs {VIS} {nl(cps)}"
             yield f"rts {VIS} {nl(cps)}"
-            cps = rstr(n, 0x10000, [0, 0xD7FF, 0xE000, 0xFFFF, 0xD800, 0xDFFF, 0x10000, 0x10FFFF, 65])
+            cps = rstr(n, 0x10000, [0, 0xD7FF, 0xE000, 0xFFFF, 0xD800, 0xDFFF, 0x10000, 0x10FFFF, 65, 0xFEFF, 0xFFFE])
             yield f"encs {UNI} {nl(cps)}"
             yield f"rts {UNI} {nl(cps)}"
             cps = rstr(n, 300, [128, 255, 0])
@@ -401,7 +401,15 @@ def gen_ops(tier, rng):
             yield f"dec {OCT} {hx(b)}"
             yield f"dec {DOM} {hx(b)}"
             yield f"dec none {hx(b)}"
+    # byte-order marks are ordinary characters of a UNICODE_STRING (utf_16_le), also in first position
+    for c in (0xFEFF, 0xFFFE):
+        for cps in ([c], [c, 65], [c, c, 66], [65, c], [c, 0x3042, 0x3044]):
+            yield f"rts {UNI} {nl(cps)}"
+            yield f"encs {UNI} {nl(cps)}"
+            yield f"dec {UNI} {hx(b''.join(x.to_bytes(2, 'little') for x in cps))}"
     if tier == "thorough":
+        for c in range(0, 0x11000, 1):
+            yield f"rts {UNI} {c},65"
         for c in range(0, 128):
             yield f"rts {VIS} {c},65"
         for c in range(0, 0x11000, 1):
